@@ -136,12 +136,3 @@ Print Assumptions C07_quickmatch_over_approximates.
 Theorem C07_no_panic : forall me bf s q, handle me bf s q <> Panic.
 Proof. exact no_panic. Qed.
 Print Assumptions C07_no_panic.
-
-(** FINDING (unchanged tree).  With a scan window (maxFileScanEntries), a
-    response that reports the end of the log (oldest = 0) should leave nothing
-    visible beyond the page ([scan_window_end_statement]).  The faithful
-    model refutes it: a record dropped as ignored reports stamp 0, so when it
-    is the last record scanned of an exhausted window, paging stops early. *)
-Theorem C07_scan_window_end_refuted : ~ scan_window_end_statement.
-Proof. exact scan_window_end_refuted. Qed.
-Print Assumptions C07_scan_window_end_refuted.
